@@ -372,3 +372,68 @@ func ZZ_C11_labelCleanupAfterFaults() {
 	nondet.Reach("C11.label.a-call-failed", faults >= 1)
 	nondet.Reach("C11.label.no-fault", faults == 0)
 }
+
+// ZZ_C11_nodeRemovalAfterFaults: the "node removal" scenario of C11 combined with a pending
+// creation: the active replica set serves node0, node1 has just joined (no pod yet) and a pod is
+// left on a node that no longer exists (to clean up).  In the first sync every API write is,
+// independently, rejected, applied with the answer lost, or fine; afterwards failure-free syncs
+// (by the same or by fresh controller instances, one minute apart, kubelet steps in between) reach
+// the failure-free final state — one Ready pod on node0 and on node1, the stranded pod gone — and
+// stay there: nothing a failed call left in the status (conditions included) changes the outcome.
+func ZZ_C11_nodeRemovalAfterFaults() {
+	c, ds, rsNew, _ := zzStore(2)
+	ds.Status.ActiveReplicaSet = rsNew.Name
+	c.Pods = append(c.Pods,
+		zzPod("pod-node0", zzNodeName(0), zzRSName, zzHashNew, 0, corev1.PodRunning, true, nondet.Base().Add(-time.Hour)),
+		zzPod("stranded", "node-gone", zzRSName, zzHashNew, 0, corev1.PodRunning, true, nondet.Base().Add(-time.Hour)))
+	if nondet.Bool("duplicateOnNode0") {
+		c.Pods = append(c.Pods, zzPod("pod-node0-dup", zzNodeName(0), zzRSName, zzHashNew, 0, corev1.PodRunning, true, nondet.Base().Add(-time.Minute)))
+	}
+	fresh := nondet.Bool("freshInstancesEveryRound")
+	r := zzReconciler(c, false)
+	sync := func() {
+		if fresh {
+			r = zzReconciler(c, false)
+		}
+		_, _ = zzReconcile(r, zzNS, rsNew.Name)
+		zzKubelet(c)
+	}
+	c.InjectFaults = true
+	sync()
+	c.InjectFaults = false
+	anyFault := false
+	for _, e := range c.Log {
+		if e.Failed {
+			anyFault = true
+		}
+	}
+	converged := func() bool {
+		if len(c.Pods) != 2 {
+			return false
+		}
+		seen := map[string]bool{}
+		for _, p := range c.Pods {
+			n := p.Spec.NodeName
+			if (n != zzNodeName(0) && n != zzNodeName(1)) || seen[n] {
+				return false
+			}
+			seen[n] = true
+		}
+		return true
+	}
+	for i := 0; i < 4 && !converged(); i++ {
+		sync()
+	}
+	nondet.Assert("C11.node-removal.converges", converged())
+	before := len(c.Writes())
+	sync()
+	podWrites := 0
+	for _, e := range c.Writes()[before:] {
+		if e.Kind == "Pod" {
+			podWrites++
+		}
+	}
+	nondet.Assert("C11.node-removal.quiescent", converged() && podWrites == 0)
+	nondet.Observe("pods", len(c.Pods))
+	nondet.Reach("C11.node-removal.after-fault", anyFault && converged())
+}
